@@ -36,13 +36,31 @@ COMMON = [
     (f"anc(name:eq:x{h('n1')})", 'ancestor(name(eq("n1")))'),
     ("anc(lvf:warn)", "ancestor(level(LevelFilter::WARN))"),
     (f"anc(and(lvf:debug,tgt:x{h('app')}))", 'ancestor(level(LevelFilter::DEBUG) & target("app"))'),
+    # (appended so that the index-based `core` selection below stays as it was)
+    ("lvl:error", "level(Level::ERROR)"),
+    ("lvf:error", "level(LevelFilter::ERROR)"),
+    ("lvf:trace", "level(LevelFilter::TRACE)"),
+    (f"fld:x{h('r#type')}:i64:1", 'field("r#type", 1_i64)'),
+    (f"fld:x{h('type')}:i64:1", 'field("type", 1_i64)'),
+    (f"fld:x{h('f0')}:vstr:sw:x{h('3')}", 'field("f0", value(starts_with("3")))'),
+    ("anc(lvl:info)", "ancestor(level(Level::INFO))"),
+    (f"anc(name:eq:x{h('n0')})", 'ancestor(name(eq("n0")))'),
+    (f"par(anc(name:eq:x{h('n2')}))", 'parent(ancestor(name(eq("n2"))))'),
+    (f"fld:x{h('f1')}:f64:0000000000000000", 'field("f1", 0.0_f64)'),
+    (f"fld:x{h('f1')}:f64:8000000000000000", 'field("f1", -0.0_f64)'),
+    (f"fld:x{h('f1')}:f64:7ff8000000000000", 'field("f1", f64::NAN)'),
 ]
 SPAN_ONLY = [
+    (f"name:eq:x{h('r#type')}", 'name(eq("r#type"))'),
+    (f"name:eq:x{h('type')}", 'name(eq("type"))'),
+    (f"name:sw:x{h('r#')}", 'name(starts_with("r#"))'),
     (f"name:eq:x{h('n0')}", 'name(eq("n0"))'),
     (f"name:sw:x{h('n')}", 'name(starts_with("n"))'),
     (f"name:eq:x{h('n2')}", 'name(eq("n2"))'),
 ]
 EVENT_ONLY = [
+    (f"msg:eq:x{h('e0')}", 'message(eq("e0"))'),
+    (f"msg:sw:x{h('e')}", 'message(starts_with("e"))'),
     (f"msg:eq:x{h('s0')}", 'message(eq("s0"))'),
     (f"msg:sw:x{h('s')}", 'message(starts_with("s"))'),
     (f"msg:eq:x{h('D(1)')}", 'message(eq("D(1)"))'),
@@ -57,12 +75,21 @@ def table(atoms, seed):
             out.append((f"and({a[0]},{b[0]})", f"({a[1]} & {b[1]})"))
             out.append((f"or({a[0]},{b[0]})", f"({a[1]} | {b[1]})"))
     d2 = out[len(atoms):]
-    for _ in range(60):
+    # depth 3: every operator with the compound operand on either side (`a & b | c` is an `And`
+    # on the left of `|`), written with and without the redundant parentheses
+    for i in range(160):
         x, y = rnd.choice(d2), rnd.choice(atoms)
-        if rnd.random() < 0.5:
+        bare = x[1][1:-1] if rnd.random() < 0.5 else x[1]
+        shape = i % 4
+        if shape == 0:
             out.append((f"and({x[0]},{y[0]})", f"({x[1]} & {y[1]})"))
-        else:
+        elif shape == 1:
             out.append((f"or({y[0]},{x[0]})", f"({y[1]} | {x[1]})"))
+        elif shape == 2:
+            # Rust parses `a & b | c` as `(a & b) | c` and `a | b | c` as `(a | b) | c`
+            out.append((f"or({x[0]},{y[0]})", f"({bare} | {y[1]})"))
+        else:
+            out.append((f"and({y[0]},{x[0]})", f"({y[1]} & {x[1]})"))
     seen, res = set(), []
     for t, e in out:
         if t not in seen:
